@@ -110,24 +110,33 @@ fn is_lalrpop_internal(caller: &str, file: &str) -> bool {
 }
 
 /// (function, kind) -> count over a crate, excluding generated LALRPOP internals.
+/// `string::StringParser::<'a>::new` -> `string::StringParser::new`: lifetime names are not part of a function's identity
+pub fn strip_lifetimes(name: &str) -> String {
+    let re = regex::Regex::new(r"::<'[A-Za-z_0-9]+(?:, *'[A-Za-z_0-9]+)*>").unwrap();
+    re.replace_all(name, "").to_string()
+}
+
 pub fn panic_inventory(cf: &CrateFacts, file_filter: &dyn Fn(&str) -> bool) -> BTreeMap<(String, String), usize> {
     let mut inv: BTreeMap<(String, String), usize> = BTreeMap::new();
+    let live = cf.reachable_from_api();
+    let file_filter = |f: &str| file_filter(f);
+    let is_live = |func: &str| live.contains(func);
     for c in &cf.calls {
-        if is_lalrpop_internal(&c.caller, &c.file) || !file_filter(&c.file) {
+        if is_lalrpop_internal(&c.caller, &c.file) || !file_filter(&c.file) || c.macros.contains("debug_assert") || !is_live(&c.caller) {
             continue;
         }
         if let Some(k) = panic_kind(&c.callee) {
-            *inv.entry((c.caller.clone(), k)).or_insert(0) += 1;
+            *inv.entry((strip_lifetimes(&c.caller), k)).or_insert(0) += 1;
         }
     }
     for a in &cf.asserts {
         if a.kind == "MisalignedPointerDereference" || a.kind == "NullPointerDereference" {
             continue; // compiler-inserted debug checks on reference derefs; cannot fail in safe code
         }
-        if is_lalrpop_internal(&a.func, &a.file) || !file_filter(&a.file) {
+        if is_lalrpop_internal(&a.func, &a.file) || !file_filter(&a.file) || a.macros.contains("debug_assert") || !is_live(&a.func) {
             continue;
         }
-        *inv.entry((a.func.clone(), format!("assert:{}", a.kind))).or_insert(0) += 1;
+        *inv.entry((strip_lifetimes(&a.func), format!("assert:{}", a.kind))).or_insert(0) += 1;
     }
     inv
 }
@@ -135,22 +144,24 @@ pub fn panic_inventory(cf: &CrateFacts, file_filter: &dyn Fn(&str) -> bool) -> B
 /// (function, kind) -> source lines of the sites
 pub fn panic_sites(cf: &CrateFacts, file_filter: &dyn Fn(&str) -> bool) -> BTreeMap<(String, String), Vec<(String, usize)>> {
     let mut inv: BTreeMap<(String, String), Vec<(String, usize)>> = BTreeMap::new();
+    let live = cf.reachable_from_api();
+    let is_live = |func: &str| live.contains(func);
     for c in &cf.calls {
-        if is_lalrpop_internal(&c.caller, &c.file) || !file_filter(&c.file) {
+        if is_lalrpop_internal(&c.caller, &c.file) || !file_filter(&c.file) || c.macros.contains("debug_assert") || !is_live(&c.caller) {
             continue;
         }
         if let Some(k) = panic_kind(&c.callee) {
-            inv.entry((c.caller.clone(), k)).or_default().push((c.file.clone(), c.line));
+            inv.entry((strip_lifetimes(&c.caller), k)).or_default().push((c.file.clone(), c.line));
         }
     }
     for a in &cf.asserts {
         if a.kind == "MisalignedPointerDereference" || a.kind == "NullPointerDereference" {
             continue;
         }
-        if is_lalrpop_internal(&a.func, &a.file) || !file_filter(&a.file) {
+        if is_lalrpop_internal(&a.func, &a.file) || !file_filter(&a.file) || a.macros.contains("debug_assert") || !is_live(&a.func) {
             continue;
         }
-        inv.entry((a.func.clone(), format!("assert:{}", a.kind))).or_default().push((a.file.clone(), a.line));
+        inv.entry((strip_lifetimes(&a.func), format!("assert:{}", a.kind))).or_default().push((a.file.clone(), a.line));
     }
     inv
 }
@@ -183,13 +194,13 @@ pub fn check_inventory_auto(cx: &mut Ctx, rule: &str, inv: &BTreeMap<(String, St
         // site-independent discharges first: all sites of this (function, kind) covered by a global rule
         if let Some(ss) = sites.get(&(func.clone(), kind.clone())) {
             let reasons: Vec<Option<String>> = ss.iter().map(|(f, l)| auto(func, kind, f, *l)).collect();
-            let in_table = table.iter().any(|r| r.func == func && r.kind == kind && *n <= r.max);
+            let in_table = table.iter().any(|r| strip_lifetimes(r.func) == *func && r.kind == kind && *n <= r.max);
             if !in_table && !reasons.is_empty() && reasons.iter().all(|r| r.is_some()) {
                 cx.ok(rule, &format!("{}: {} x{} -- {}", func, kind, n, reasons[0].clone().unwrap_or_default()));
                 continue;
             }
         }
-        match table.iter().enumerate().find(|(_, r)| r.func == func && r.kind == kind) {
+        match table.iter().enumerate().find(|(_, r)| strip_lifetimes(r.func) == *func && r.kind == kind) {
             Some((i, r)) => {
                 seen_rows.insert(i);
                 if *n <= r.max {
